@@ -79,6 +79,8 @@ pub struct Sim {
     pub last_run: u32,
     pub next_msg_id: u64,
     pub server_panicked: bool,
+    /// whether `send_replication` ran in the most recent server frame (cfg-guarded counter in /repo)
+    pub last_ran: bool,
     /// messages sent in the last step (decoded), for `obs`
     pub last_sent: Vec<Value>,
     /// what game logic observed in the last frame (event deliveries)
@@ -209,6 +211,7 @@ impl Sim {
             last_run: 0,
             next_msg_id: 1,
             server_panicked: false,
+            last_ran: false,
             last_sent: Vec::new(),
             last_delivered: Vec::new(),
             pending_semits: Vec::new(),
@@ -607,7 +610,9 @@ impl Sim {
         if tick {
             self.server.world_mut().resource_mut::<ServerTick>().increment();
         }
+        let runs_before = bevy_replicon::server::verif::replication_runs();
         let r = catch_unwind(AssertUnwindSafe(|| self.server.update()));
+        self.last_ran = bevy_replicon::server::verif::replication_runs() != runs_before;
         if let Err(p) = r {
             self.server_panicked = true;
             self.last_panic = Some(panic_msg(p));
@@ -1020,6 +1025,7 @@ impl Sim {
             "tick": w.resource::<ServerTick>().get(),
             "frame": self.frame,
             "lastRun": self.last_run,
+            "ran": self.last_ran,
             "running": w.resource::<RepliconServer>().is_running(),
             "now": w.resource::<Time>().elapsed().as_millis() as u64,
             "world": world,
